@@ -33,13 +33,29 @@ ADVERSARIAL = {
     'prefixes': lambda k, i: {'T': 'A', 'W': 'A', 'C': 'A', 'S': 'A', 'K': 'A', 'B': 'A', 'I': 'A', 'O': 'A'}[k] * 1 + '1' * i if k in 'TW' else '%s%d' % (k, i),
     'infixes': lambda k, i: ('W1_busy_T%d' % i) if k == 'T' and i == 2 else ('X%d_CumulativeWorker_1' % i if k == 'W' and i == 2 else '%s%d' % (k, i)),
 }
-MAX_ENUM = 80
+MAX_ENUM = 300
 
 
 def small_program(r):
     """small problems with a horizon: tasks, a worker / a selection, optional tasks, a few constraints"""
     hz = r.choice([5, 6, 7, 8])
     Z, N = terms.Z, terms.N
+    if r.random() < 0.25:
+        # an optional task and an alternative-worker selection sharing a worker: both park empty busy intervals in the
+        # past (at -task_number and at a unique negative integer), both numberings depend on the declaration order
+        ops = [('ONewProblem', terms.optZ(r.choice([4, 5])))]
+        order = [1, 2, 3]
+        r.shuffle(order)
+        for i in order:
+            ops.append(('ONewTask', N(i), ('KFixed', Z(r.choice([1, 2]))), i == 2 or (i == 3 and r.random() < 0.5), Z(0), None, None, False, Z(1)))
+        ops += [('ONewWorker', N(1), Z(1), ('CostConst', Z(0))), ('ONewWorker', N(2), Z(1), ('CostConst', Z(0))),
+                ('ONewSelect', N(1), [('RW', ('WPlain', N(1))), ('RW', ('WPlain', N(2)))] if r.random() < 0.5 else
+                 [('RW', ('WPlain', N(2))), ('RW', ('WPlain', N(1)))], Z(1), ('PbExact',)),
+                ('OAddRequired', N(1), ('ArgS', N(1)), False, Z(0), Z(0)),
+                ('OAddRequired', N(2), ('ArgW', ('WPlain', N(1))), False, Z(0), Z(0))]
+        if r.random() < 0.5:
+            ops.append(('OAddRequired', N(3), ('ArgW', ('WPlain', N(2))), False, Z(0), Z(0)))
+        return ops
     ops = [('ONewProblem', terms.optZ(hz))]
     nt = r.randint(2, 3)
     for i in range(1, nt + 1):
@@ -277,7 +293,8 @@ def classify(d, prog):
     what = d[0]
     has_opt = any(o[0] == 'ONewTask' and o[3] for o in prog)
     has_sel = any(o[0] == 'ONewSelect' for o in prog)
-    if what.startswith('order:') and has_opt and has_sel:
+    has_sort = any(o[0] == 'ONewConstraint' and o[3][0] in ('CNonDelay', 'CDistance') for o in prog)
+    if what.startswith('order:') and has_opt and has_sel and has_sort:
         return 'order_parking_collision'
     if what.startswith('adversarial_'):
         return 'adversarial_names'
